@@ -136,3 +136,66 @@ def vars_in(x, acc=None):
             for y in x:
                 vars_in(y, acc)
     return acc
+
+
+# --------------------------------------------------------------------------- search programs
+
+def small_list(rng, tg, maxlen=3):
+    n = rng.randint(0, maxlen)
+    return ["list", [tg.atom() for _ in range(n)]]
+
+
+def lib_goal(rng, tg):
+    """A call of a library relation in a mode with finitely many answers."""
+    r = rng.random()
+    v = lambda: var(rng.choice(tg.vars))
+    if r < 0.35:
+        return ["call", "member", [v() if rng.random() < 0.8 else tg.atom(), small_list(rng, tg)]]
+    if r < 0.55:
+        return ["call", "append", [v(), v(), small_list(rng, tg)]]
+    if r < 0.7:
+        return ["call", "append", [small_list(rng, tg, 2), small_list(rng, tg, 2), v()]]
+    if r < 0.8:
+        return ["call", "member1", [v(), small_list(rng, tg)]]
+    if r < 0.9:
+        return ["call", "rember", [tg.atom(), small_list(rng, tg), v()]]
+    return ["call", "cons", [v(), v(), small_list(rng, tg)]]
+
+
+def search_program(rng, nq, size, dfs=False, lib=True, leafs=False):
+    """Goals mixing eq/neq, conde (cond when dfs), fresh, library calls; finite search tree."""
+    state = {"next": nq + 1, "leaf": 0}
+    disj = "cond" if dfs else "conde"
+
+    def block(vars_, budget, level):
+        goals = []
+        tg = TermGen(rng, vars_, compounds=False, syms=False, nums=[1, 2, 3])
+        while budget > 0:
+            r = rng.random()
+            if level < 2 and budget >= 2 and r < 0.3:
+                ncl = rng.randint(2, 3)
+                cls = []
+                for _ in range(ncl):
+                    b = rng.randint(1, max(1, budget // ncl))
+                    cls.append(block(vars_, b, level + 1))
+                    budget -= b
+                goals.append([disj, cls])
+            elif level < 2 and budget >= 2 and r < 0.4:
+                ids = [state["next"]]
+                state["next"] += 1
+                b = rng.randint(1, budget)
+                goals.append(["fresh", ids, block(list(vars_) + ids, b, level + 1)])
+                budget -= b
+            elif lib and r < 0.65:
+                goals.append(lib_goal(rng, tg))
+                budget -= 1
+            elif leafs and r < 0.75:
+                state["leaf"] += 1
+                goals.append(["leaf", "l%d" % state["leaf"]])
+                budget -= 1
+            else:
+                goals.append(tree_goal(tg, 1, p_neq=0.3))
+                budget -= 1
+        return goals
+
+    return block(list(range(1, nq + 1)), size, 0)
